@@ -1198,6 +1198,9 @@ def store(
     arrays = []
     for s, t, r in zip(sources, targets, regions_list):
         slices = ArraySliceDep(s.chunks)
+        # A target is written to: two targets that currently hold the same data
+        # are still different sinks and must not share one store task
+        t_token = t if is_dask_collection(t) else (type(t), id(t))
         arrays.append(
             s.map_blocks(
                 load_store_chunk,  # type: ignore[arg-type]
@@ -1208,7 +1211,8 @@ def store(
                 lock=lock,
                 return_stored=return_stored,
                 load_stored=load_stored,
-                token="store-map",
+                name="store-map-"
+                + tokenize(s, t_token, r, lock, return_stored, load_stored),
                 meta=s._meta,
             )
         )
